@@ -130,6 +130,47 @@ def run(tier):
             check.violation({"class": "parsing-did-not-continue", "context": kind, "bad": bad.strip()},
                             {"src": tasks[2 * j + 1]["src"], "insert_at": k, "expected_kinds": [x[2] for x in fo], "observed_kinds": [x[2] for x in fb]})
     check.cov["recovered_cases"] = usable
+    # many errors in one file (a dozen and more malformed statements among well-formed ones): parsing goes on to the end - the
+    # well-formed statements after the LAST malformed one are in the tree, and so is the first one of the file
+    many = []
+    simple = [m for m in MENU if not any(c in m for c in ")]") or "(" in m]
+    for family in ("7", "5"):
+        mine = [c for c in cases if c[0] == family and c[1] == "top"]
+        for i in range(0, 30 if tier == "quick" else 300):
+            goods = []
+            for c in mine[i * 5:i * 5 + 5]:
+                goods += c[2]
+            goods = goods[:18]
+            if len(goods) < 18:
+                break
+            parts = []
+            for k, g in enumerate(goods):
+                parts.append(g)
+                if 0 < k < 16:
+                    parts.append(simple[(i + k) % len(simple)] + "\n")
+            many.append((family, goods, "".join(parts)))
+    mt = []
+    for family, goods, broken in many:
+        ver = progs.VERS[family][0]
+        mt.append({"op": "stmt_fps", "src": "<?php " + "".join(goods), "ver": ver, "path": ["Stmts"]})
+        mt.append({"op": "stmt_fps", "src": "<?php " + broken, "ver": ver, "path": ["Stmts"]})
+    mres = wp.run(mt)
+    nmany = 0
+    for j, (family, goods, broken) in enumerate(many):
+        ro, rb = mres[2 * j], mres[2 * j + 1]
+        check.count(2)
+        if any(x.get("panic") or x.get("hang") or x.get("crash") for x in (ro, rb)) or ro.get("nerr", 1) > 0 or not ro.get("path_ok") or len(ro["fps"]) != len(goods):
+            continue
+        if not rb.get("root") or not rb.get("path_ok"):
+            continue
+        nmany += 1
+        fo, fb = ro["fps"], rb["fps"] or []
+        have = [x[1] for x in fb]
+        if fo[0][1] not in have or fo[-1][1] not in have or fo[-2][1] not in have:
+            check.violation({"class": "parsing-did-not-continue", "context": "many-errors", "bad": "15 malformed statements"},
+                            {"src": mt[2 * j + 1]["src"], "errors_reported": rb.get("nerr"), "expected_last_kinds": [x[2] for x in fo[-2:]],
+                             "observed_kinds": [x[2] for x in fb]})
+    check.cov["many_error_files"] = nmany
     check.sample({"context": cases[1][1], "broken": tasks[3]["src"]})
     # no invention: every tree returned with errors
     srcs = [t["src"].encode("latin-1") for t in tasks[1::2]][:: (3 if tier == "quick" else 1)]
